@@ -20,8 +20,41 @@ def run_property(prop: str, tier: str, overlay: Optional[Dict[str, str]] = None,
     ctx = Ctx(prop, tier, prog)
     if holder is not None:
         holder.append(ctx)
-    mod.run(ctx)
+    # cross-cutting rule on the property's anchor files: options are handed on to callees (sa/siblings.py::option_forward)
+    from . import siblings
+    late = None
+    try:
+        mod.run(ctx)
+    except AnalysisError as e:
+        late = e
+    siblings.option_forward(ctx, anchor_modules(prop, prog))
+    if late is not None:
+        raise late
     return ctx
+
+
+def anchor_modules(prop: str, prog: Program) -> List[str]:
+    """Module names of the files listed under anchors.files of the property (properties.jsonl)."""
+    import json
+    here = os.path.dirname(os.path.dirname(os.path.abspath(__file__)))
+    out: List[str] = []
+    with open(os.path.join(here, "properties.jsonl")) as fh:
+        for line in fh:
+            d = json.loads(line)
+            if d["id"] != prop:
+                continue
+            for f in d["anchors"]["files"]:
+                if not f.startswith("src/") or not f.endswith(".py"):
+                    continue
+                name = f[4:-3].replace("/", ".")
+                if name.endswith(".__init__"):
+                    name = name[:-9]
+                if name not in prog.modules:
+                    raise AnalysisError(f"anchor file vanished: {f}")
+                out.append(name)
+    if not out:
+        raise AnalysisError(f"property {prop} has no anchor files")
+    return out
 
 
 def _mutant_worker(args) -> Tuple[str, bool, List[str], str]:
